@@ -58,6 +58,8 @@ class Builder:
     def line(self): return 'prog ' + ' ; '.join(self.ops)
 
 STRESS = [
+ 'prog new ; then 0 1 val:0 rth ; then 1 2 val:0 rth ; then 2 3 val:0 cus:9 ; reject 0 7',
+ 'prog new ; then 0 1 val:3 rth ; reject 0 4 ; then 1 2 val:0 cus:8',
  'prog new ; new ; new ; allr 0,1,2 ; then 3 1 val:0 rth ; resolve 2 1 ; resolve 0 2 ; resolve 1 3',
  'prog new ; new ; new ; new ; all 0,1,2,3 ; then 4 1 val:0 rth ; resolve 3 1 ; resolve 1 2 ; resolve 0 3 ; resolve 2 4',
  'prog new ; new ; allr 0,1 ; then 2 1 val:0 cus:8 ; reject 1 3 ; resolve 0 7 ; reject 0 2',
@@ -151,6 +153,30 @@ def oracle(line, out):
     for e in log:
         mm = re.fullmatch(r'c(\d+)\((-?\d+)\)', e)
         if mm: ran[int(mm.group(1))] = int(mm.group(2))
+    # a rejection reaches the rejection continuation of the promise it settles and, forwarded by rethrow links, the next custom
+    # handler down the chain, with the same exception
+    def rejection_of(i, depth=0):
+        w = slots[i]
+        if w[0] == 'rej': return int(w[1])
+        if w[0] == 'new':
+            o = first.get(i); return o[1] if o and o[0] == 'reject' else None
+        if w[0] == 'then' and w[4] == 'rth' and depth < 50:
+            par = int(w[1])
+            return rejection_of(par, depth + 1) if par < len(slots) else None
+        return None
+    rejran = {}
+    for e in log:
+        mm = re.fullmatch(r'r(\d+)\((-?\d+)\)', e)
+        if mm: rejran.setdefault(int(mm.group(1)), []).append(int(mm.group(2)))
+    if 'T' not in outs:
+        for w in slots:
+            if w[0] != 'then' or not w[4].startswith('cus:'): continue
+            par = int(w[1]); hcb = int(w[4][4:])
+            if par >= len(slots): continue
+            exc = rejection_of(par)
+            if exc is None: continue
+            if hcb not in rejran: return ('rej-missing', 'promise %d is rejected with %d (through rethrow links) but the custom handler r%d attached to it never ran: %s' % (par, exc, hcb, m.group(2)))
+            if rejran[hcb] != [exc]: return ('rej-exception', 'custom handler r%d on promise %d (rejected with %d) ran with %s' % (hcb, par, exc, rejran[hcb]))
     if 'T' not in outs:
         for w in slots:
             if w[0] != 'then': continue
